@@ -70,6 +70,8 @@ func (e *Engine) registerIntrinsics(pkgPath string) {
 		x.bounds[name] = v
 		return IntC(int64(v))
 	})
+	reg("vrtProp", func(x *Exec, fr *frame, a []Value) Value { return BoolC(x.E.Prop == x.constStr(a[0], "property id")) })
+	reg("vrtPropID", func(x *Exec, fr *frame, a []Value) Value { return StrC(x.E.Prop) })
 	reg("vrtThorough", func(x *Exec, fr *frame, a []Value) Value { return BoolC(x.E.Tier == "thorough") })
 	reg("vrtSymbolic", func(x *Exec, fr *frame, a []Value) Value { return TrueT })
 	reg("vrtAssume", func(x *Exec, fr *frame, a []Value) Value {
@@ -142,6 +144,12 @@ func (e *Engine) registerIntrinsics(pkgPath string) {
 			panic(abortf("harness: unknown regex class %s", class))
 		}
 		_ = re
+		if class == "ncname_id" {
+			ps := flatten(s)
+			if len(ps) == 2 && ps[0].IsConst() && ps[0].S == "_" && x.attr(ps[1], "uuid") {
+				return TrueT
+			}
+		}
 		return InReOrConst(s, class)
 	})
 	reg("vrtLazy", func(x *Exec, fr *frame, a []Value) Value {
